@@ -74,6 +74,8 @@ def safe_sites(fn_rec):
                 a, b = _lit(fl.get("start", {})), _len_plus(fl.get("end", {}))
                 if a is not None and b and b[0] is not None:
                     new = loops + [(e["pat"]["id"], a, b[0], b[1])]
+            if e.get("counted_while_dec_ln") is not None:
+                ok.add((e["counted_while_dec_ln"], "sub"))        # `i -= 1` under `while i > 0` cannot underflow
             if e.get("counted_while_inc_ln") is not None:
                 ok.add((e["counted_while_inc_ln"], "add"))        # `i += 1` under `while i < N`: i + 1 <= N cannot overflow
             visit(e["iter"], loops)
